@@ -1,6 +1,6 @@
 #!/bin/bash
 # run every registered quick (or $1=thorough) check sequentially, print one summary line each
-cd /verif
+cd "$(dirname "$0")/.."
 TIER=${1:-quick}
 for id in $(python3 -c "import json; print(' '.join(c['property_id'] for c in json.load(open('MANIFEST.json'))['checks']))"); do
   out=$(./check $id $TIER 2>/dev/null); rc=$?
